@@ -31,6 +31,9 @@ type Sym struct {
 	HasVal bool
 	Val    string
 	Own    map[string]string
+	// timestamp alphabet (TimeAlphabet): the operation's unix time is timeBase+DT whatever its position
+	HasDT bool
+	DT    int
 }
 
 func labelVariants(kind string, inc bool) []Sym {
@@ -113,6 +116,29 @@ func MetaAlphabet() []Sym {
 	return a
 }
 
+// TimeAlphabet is the alphabet of the timestamp runs: the comment / edit / title / status / label
+// subset, every operation stamped timeBase-10, timeBase or timeBase+10 independently of its position,
+// so that sequences contain operations that are later in operation order but older by the clock.
+func TimeAlphabet() []Sym {
+	var a []Sym
+	for _, k := range []Sym{
+		{Name: "add-comment", Kind: "add"},
+		{Name: "edit(create)", Kind: "edit", Target: "create"},
+		{Name: "edit(comment1)", Kind: "edit", Target: "c1"},
+		{Name: "set-title", Kind: "title"},
+		{Name: "close", Kind: "close"},
+		{Name: "force(+a)", Kind: "force", Add: []string{"a"}},
+	} {
+		for _, dt := range []int{10, 0, -10} {
+			x := k
+			x.Name = fmt.Sprintf("%s@T%+d/A", k.Name, dt)
+			x.HasDT, x.DT, x.Inc = true, dt, true
+			a = append(a, x)
+		}
+	}
+	return a
+}
+
 func filter(a []Sym, f func(Sym) bool) []Sym {
 	var out []Sym
 	for _, s := range a {
@@ -159,6 +185,7 @@ func NewEnv() (*Env, error) {
 }
 
 const (
+	timeBase  = 1600100000 // T of the timestamp runs
 	baseTime  = 1600000000
 	unknownId = entity.Id("00ff00ff00ff00ff00ff00ff00ff00ff00ff00ff00ff00ff00ff00ff00ff00ff")
 )
@@ -235,6 +262,9 @@ func (bd *builder) resolve(target string) (entity.Id, bool) {
 func (bd *builder) apply(s Sym, pos int) (string, error) {
 	author := bd.env.Authors[s.Author]
 	t := int64(baseTime + pos)
+	if s.HasDT {
+		t = int64(timeBase + s.DT)
+	}
 	meta := map[string]string{"o": fmt.Sprintf("orig%d", pos)}
 	for k, v := range s.Own {
 		meta[k] = v
@@ -336,9 +366,10 @@ func (bd *builder) apply(s Sym, pos int) (string, error) {
 
 // Case is one element of the enumerated space.
 type Case struct {
-	Mode        string   `json:"mode"`         // "full", "incremental" or "reload" (full, then committed to an in-memory repository and read back)
-	CreateFiles bool     `json:"create_files"` // the create operation carries files
-	ForceAt     int      `json:"force_at"`     // incremental: the snapshot is forced after this many appended operations
+	Mode        string   `json:"mode"`                // "full", "incremental" or "reload" (full, then committed to an in-memory repository and read back)
+	CreateFiles bool     `json:"create_files"`        // the create operation carries files
+	ForceAt     int      `json:"force_at"`            // incremental: the snapshot is forced after this many appended operations
+	CreateAt    int64    `json:"create_at,omitempty"` // unix time of the create operation (0: the default base time)
 	Seq         []string `json:"seq"`
 }
 
@@ -360,7 +391,7 @@ type Result struct {
 
 // Run executes one case on the real code and evaluates all oracles. A harness-level failure (the
 // case cannot be built for a reason that is not a behaviour of git-bug under test) is returned as error.
-func (env *Env) Run(syms []Sym, createFiles bool, mode string, forceAt int) (res Result, err error) {
+func (env *Env) Run(syms []Sym, createFiles bool, mode string, forceAt int, createAt int64) (res Result, err error) {
 	defer func() {
 		if r := recover(); r != nil {
 			res.Outcome = Built
@@ -371,7 +402,10 @@ func (env *Env) Run(syms []Sym, createFiles bool, mode string, forceAt int) (res
 	if createFiles {
 		cfiles = filesFor(0)
 	}
-	b, _, cerr := bug.Create(env.Authors[0], baseTime, "title0", "m0", cfiles, map[string]string{"o": "orig0"})
+	if createAt == 0 {
+		createAt = baseTime
+	}
+	b, _, cerr := bug.Create(env.Authors[0], createAt, "title0", "m0", cfiles, map[string]string{"o": "orig0"})
 	if cerr != nil {
 		return res, cerr
 	}
@@ -464,7 +498,7 @@ func symNames(s []Sym) []string {
 
 func lookup(names []string) ([]Sym, error) {
 	byName := map[string]Sym{}
-	for _, s := range append(MetaAlphabet(), Alphabet()...) {
+	for _, s := range append(append(TimeAlphabet(), MetaAlphabet()...), Alphabet()...) {
 		byName[s.Name] = s
 	}
 	var out []Sym
